@@ -157,3 +157,32 @@ theorem pascalCase_ne_of_us (s : List Char) (h : '_' ∈ s) : pascalCase s ≠ s
   exact pascalCase_noUs s (by rw [e]; exact h)
 
 end Bp.Names
+
+namespace Bp.Names
+
+theorem pascalPart_fixed {s : List Char} (h : IsPascal s) : pascalPart s = s := by
+  obtain ⟨c, rest, rfl, hup, _, hnot⟩ := h
+  simp only [pascalPart, toUpperC_of_upper hup]
+  simp [hnot]
+
+theorem IsPascal.noUs {s : List Char} (h : IsPascal s) : '_' ∉ s := by
+  obtain ⟨c, rest, rfl, _, hnu, _⟩ := h; exact hnu
+
+/-- `pascal_case` of Pascal names joined by `_` is their concatenation -/
+theorem pascalCase_join : ∀ (scopes : List (List Char)) (n : List Char), (∀ s ∈ scopes, IsPascal s) → IsPascal n →
+    pascalCase (joinWith ['_'] (scopes ++ [n])) = scopes.flatten ++ n
+  | [], n, _, hn => by simpa [joinWith] using pascalCase_fixed hn
+  | s :: rest, n, hs, hn => by
+    have ih := pascalCase_join rest n (fun x hx => hs x (by simp [hx])) hn
+    have hsP := hs s (by simp)
+    have hne : rest ++ [n] ≠ [] := by simp
+    have hj : joinWith ['_'] (s :: (rest ++ [n])) = s ++ '_' :: joinWith ['_'] (rest ++ [n]) := by
+      cases h : rest ++ [n] with
+      | nil => exact absurd h hne
+      | cons y ys => simp [joinWith]
+    rw [List.cons_append, hj]
+    unfold pascalCase at ih ⊢
+    rw [splitUs_append_us s _ hsP.noUs]
+    simp [ih, pascalPart_fixed hsP]
+
+end Bp.Names
